@@ -27,7 +27,7 @@ REPORT_MODULES = {
 }
 
 STRINGS = ("In-Flow Detail", "Out-Flow Detail", "Intra-Flow Detail", "Gain / Loss Summary", "Account Balances", "Average Price", "Gain / Loss Detail",
-           "Yearly Gain / Loss Summary", "YES", "NO", "LONG", "SHORT", "Total", "Legend", "Summary", "Accounting Method", "From Date Filter",
+           "Yearly Gain / Loss Summary", "YES", "NO", "LONG", "SHORT", "Total", "Legend", "Summary", "Accounting Method", "From Date Filter", "{}_{}", "{}_Summary", "Transfer",
            "To Date Filter", "{} In-Out", "{} Tax", "Asset", "Asset - Exchange", "Holder", "Exchange")
 
 
